@@ -23,7 +23,7 @@ use std::sync::mpsc;
 use std::time::Duration;
 
 pub fn rule() -> String {
-    "cases = (decoder option combination, history of 1-6 decode calls on one decoder); inputs are valid pictures, mutated valid pictures (bit flips, truncation, splices, duplication), semantically extreme but well-formed pictures (extra macroblocks, runs past 63, extreme levels, invalid INTRADC, size changes, zero sizes, reserved codes, PLUSPTYPE mode bits, UMV escape chains, embedded start codes) and random bytes; a case is non-trivial if at least one call got past the picture header (macroblock loop entered), distinct by hash of (options, all call bytes)".into()
+    "cases = (decoder option combination, history of 1-6 decode calls on one decoder); inputs are valid pictures, mutated valid pictures (bit flips, truncation, splices, duplication), semantically extreme but well-formed pictures (extra macroblocks, runs past 63, extreme levels, invalid INTRADC, size changes, zero sizes, reserved codes, PLUSPTYPE mode bits, UMV escape chains, embedded start codes) and random bytes; a case is non-trivial if at least one call got past the picture header (macroblock loop entered), distinct by hash of (options, all call bytes), counted per worker process and summed (workers run disjoint case coordinates)".into()
 }
 
 /// Luma-sample limit of the "fits in memory" exclusion.
